@@ -53,7 +53,7 @@ impl<'a> Walk<'a> {
     fn vio(&self, kind: &str, detail: String) {
         let key = format!("{kind}|{} ops {}", self.seed_fen, self.ops.join(" "));
         // the replayable case is the complete operation trace where that is short enough, else the path from the root
-        let case_ops = if self.trace.len() <= 3000 { &self.trace } else { &self.ops };
+        let case_ops = if self.trace.len() <= 40000 { &self.trace } else { &self.ops };
         self.ctx.run.violation(kind, key, ops_case(&self.seed_fen, case_ops, kind), detail);
     }
 
@@ -521,6 +521,45 @@ pub fn rook_cycle_script(p: usize, q: usize, plies: usize, siblings: bool) -> (S
     (seed, ops)
 }
 
+/// One deeply nested line: the two rooks of `rook_cycle_script` cycle for `plies` operations with a null move in
+/// place of every `null_every`-th move (so one side moves twice in a row and the phase of the two cycles shifts), no
+/// sibling moves; then everything is taken back in reverse order. Returns (seed, operations incl. the take-backs).
+pub fn deep_nest_script(p: usize, q: usize, plies: usize, null_every: usize) -> (String, Vec<String>) {
+    let seed = "r7/8/7k/8/8/7K/8/R7 w - - 0 1".to_string();
+    let mut pos = Pos::from_fen(&seed).unwrap();
+    let mut ops = vec![];
+    let mut back = vec![];
+    let (mut wi, mut bi) = (0usize, 0usize);
+    let name = |file: usize, rank: char| format!("{}{}", (b'a' + file as u8) as char, rank);
+    for ply in 0..plies {
+        if null_every > 0 && ply % null_every == null_every - 1 {
+            pos = pos.apply_null();
+            ops.push("null".to_string());
+            back.push("undo-null".to_string());
+            continue;
+        }
+        let mv = if pos.side == crate::refchess::Color::W {
+            let from = wi;
+            wi = (wi + 1) % p;
+            format!("{}{}", name(from, '1'), name(wi, '1'))
+        } else {
+            let from = bi;
+            bi = (bi + 1) % q;
+            format!("{}{}", name(from, '8'), name(bi, '8'))
+        };
+        let legal = pos.legal_moves();
+        let rm = legal.iter().find(|m| m.uci() == mv).unwrap_or_else(|| panic!("deep nest script: {mv} is not legal in {}", pos.to_fen()));
+        assert!(!rm.capture, "deep nest script: {mv} captures");
+        pos = pos.apply(rm);
+        assert!(!pos.in_check(pos.side), "deep nest script: check after {mv}");
+        ops.push(mv);
+        back.push("undo".to_string());
+    }
+    back.reverse();
+    ops.extend(back);
+    (seed, ops)
+}
+
 /// Capture histories from far outside normal material: `n` white men of kind `fodder` stand on a2, a3, ..; a black rook
 /// (or queen) starts on the square above them and eats its way down the file, one capture per move, while the white
 /// king shuffles between h1 and g1; the black king sits on h8. Everything is captured in the end.
@@ -583,10 +622,13 @@ fn run_ops_list(ctx: &Ctx, om: OpMon, seed_fen: &str, ops: &[String], print: boo
         w.ops.push(op.clone());
         match op.as_str() {
             "undo" | "undo-null" => {
-                if op == "undo" {
-                    catch(|| g.undo_move())?;
-                } else {
-                    catch(|| g.undo_null_move())?;
+                let r = if op == "undo" { catch(|| g.undo_move()) } else { catch(|| g.undo_null_move()) };
+                if let Err(e) = r {
+                    // the subject panicked on a take-back the script is entitled to: a violation; the game object is
+                    // in an undefined state afterwards, so the script ends here
+                    w.trace.push(op.clone());
+                    w.vio(if op == "undo" { "undo-move-panic" } else { "undo-null-panic" }, e);
+                    break;
                 }
                 w.pop_ref();
                 let before = snaps.pop().ok_or("unbalanced undo")?;
@@ -598,7 +640,11 @@ fn run_ops_list(ctx: &Ctx, om: OpMon, seed_fen: &str, ops: &[String], print: boo
             "null" => {
                 snaps.push(mo::snapshot(&g));
                 let r = w.refs.last().unwrap().clone();
-                catch(|| g.make_null_move())?;
+                if let Err(e) = catch(|| g.make_null_move()) {
+                    w.trace.push(op.clone());
+                    w.vio("null-move-panic", e);
+                    break;
+                }
                 w.push_ref(r.apply_null(), false);
             }
             m => {
@@ -606,7 +652,11 @@ fn run_ops_list(ctx: &Ctx, om: OpMon, seed_fen: &str, ops: &[String], print: boo
                 let r = w.refs.last().unwrap().clone();
                 let rm = r.legal_moves().into_iter().find(|x| x.uci() == m).ok_or(format!("{m} not legal in reference"))?;
                 let em = g.moves().iter().copied().find(|x| format!("{x:?}") == m).ok_or(format!("{m} not generated"))?;
-                catch(|| g.make_move(em))?;
+                if let Err(e) = catch(|| g.make_move(em)) {
+                    w.trace.push(op.clone());
+                    w.vio("make-move-panic", e);
+                    break;
+                }
                 let (_, kind) = r.board[rm.from as usize].unwrap();
                 w.push_ref(r.apply(&rm), rm.capture || kind == crate::refchess::Kind::P);
             }
